@@ -13,7 +13,16 @@ the decisions, the table.
   run f  → `run()` (the `while clock < stop` loop, at most f iterations) from a FRESH initial population:
            ok <clock> <rows> <positions> | err <class>
 rows: `label,tracked,key,entrance,sex,state,exit` joined by `;` (exit `n` = NaN); positions: index-map position per row
-(`x` = none). -/
+(`x` = none).
+
+Optional tokens after the 22 of `init` (the opt-in parts of the configuration; strings are `[A-Za-z0-9_]`):
+  age=<bits>
+  pipe=<union 0/1>,<den>      pkeys=<key columns>   pedges=<age bin edges | ->   prows=<rows `;`>   mods=<kind,den,wm,wf `;`>
+  odef=<default stratifications>
+  strat=<name>,<kind>/<categories>/<excluded>/<edges>            (one token per stratification, in registration order)
+  obs=<name>,<phase>,<filter>,<agg>,<every>/<additional>/<excluded>   (one token per observation)
+With any of them every `ok` reply carries two more fields: the log of the last pipeline values `label:num/den,…` and the
+running results `name[key=value,…]+…` (key = categories joined by `|`, `all` without stratifications); rows get `,age`. -/
 open Viv Viv.Proto Viv.Whole
 
 structure St where
@@ -22,15 +31,30 @@ structure St where
 
 def errName : Err → String
   | .randomness => "randomness" | .lookup => "lookup" | .value => "value" | .fuel => "fuel" | .internal => "internal"
+  | .key => "key"
 
-def showRow (r : Row) : String :=
+def showRow (withAge : Bool) (r : Row) : String :=
   s!"{r.label},{showBool r.tracked},{r.key},{r.entrance},{r.sex},{r.st}," ++
-    (match r.exit with | none => "n" | some t => toString t)
+    (match r.exit with | none => "n" | some t => toString t) ++ (if withAge then s!",{r.age}" else "")
 
-def showState (s : State) : String :=
-  let rows := if s.rows.isEmpty then "-" else ";".intercalate (s.rows.map showRow)
+/-- is any opt-in part configured -/
+def hasExt (cfg : Config) : Bool :=
+  cfg.age.isSome || cfg.pipe.isSome || !cfg.strats.isEmpty || !cfg.obs.isEmpty || !cfg.obsDefaults.isEmpty
+
+def showKey (k : Results.Key) : String := if k.isEmpty then "all" else "|".intercalate k
+
+def showResults (c : Results.Ctx) : String :=
+  if c.obs.isEmpty then "-" else
+  "+".intercalate (c.obs.map fun o =>
+    o.name ++ "[" ++ ",".intercalate (((Results.getAssoc o.name c.adding).getD []).map fun e => s!"{showKey e.1}={e.2}") ++ "]")
+
+def showPvals (l : List (Nat × Rat)) : String :=
+  if l.isEmpty then "-" else ",".intercalate (l.map fun e => s!"{e.1}:{e.2.num}/{e.2.den}")
+
+def showState (cfg : Config) (s : State) : String :=
+  let rows := if s.rows.isEmpty then "-" else ";".intercalate (s.rows.map (showRow cfg.age.isSome))
   let pos := showStrs (s.rows.map fun r => match posOf s.imap r.label with | some p => toString p | none => "x")
-  s!"ok {s.clock} {rows} {pos}"
+  s!"ok {s.clock} {rows} {pos}" ++ (if hasExt cfg then s!" {showPvals s.pvals} {showResults s.res}" else "")
 
 /-- flat `out,wm,wf,…` → transitions -/
 def triples : List Nat → Option (List (Nat × List Nat))
@@ -38,7 +62,62 @@ def triples : List Nat → Option (List (Nat × List Nat))
   | o :: a :: b :: rest => (triples rest).map fun l => (o, [a, b]) :: l
   | _ => none
 
-def parseCfg : List String → Option Config
+/-- `a/b/c` -/
+def slashed (s : String) : List String := s.splitOn "/"
+
+def parseMod : List Int → Option ModSpec
+  | [k, d, a, b] => some { kind := k.toNat, den := d.toNat, w := [a, b] }
+  | _ => none
+
+/-- one optional token `name=value` -/
+def parseExt (cfg : Config) (tok : String) : Option Config :=
+  match tok.splitOn "=" with
+  | ["age", v] => do let b ← v.toNat?; pure { cfg with age := some b }
+  | ["pipe", v] => do
+    match ← natList v with
+    | [u, d] =>
+      let p : PipeSpec := (cfg.pipe.getD ⟨false, 1, [], [], [], []⟩)
+      pure { cfg with pipe := some { p with union := u != 0, den := d } }
+    | _ => none
+  | ["pkeys", v] => do let k ← natList v; let p ← cfg.pipe; pure { cfg with pipe := some { p with keys := k } }
+  | ["pedges", v] => do let e ← intList v; let p ← cfg.pipe; pure { cfg with pipe := some { p with edges := e } }
+  | ["prows", v] => do let r ← intLists v; let p ← cfg.pipe; pure { cfg with pipe := some { p with rows := r } }
+  | ["mods", v] => do
+    let ms ← intLists v
+    let ms ← ms.mapM parseMod
+    let p ← cfg.pipe
+    pure { cfg with pipe := some { p with mods := ms } }
+  | ["odef", v] => pure { cfg with obsDefaults := strList v }
+  | ["strat", v] =>
+    match slashed v with
+    | [hd, cats, excl, edges] => do
+      match strList hd with
+      | [name, kind] =>
+        let k ← kind.toNat?
+        let e ← intList edges
+        pure { cfg with strats := cfg.strats ++ [{ name := name, kind := k, cats := strList cats, excl := strList excl, edges := e }] }
+      | _ => none
+    | _ => none
+  | ["obs", v] =>
+    match slashed v with
+    | [hd, add, exc] => do
+      match strList hd with
+      | [name, ph, f, a, ev] =>
+        let ph ← ph.toNat?
+        let f ← f.toNat?
+        let a ← a.toNat?
+        let ev ← ev.toNat?
+        pure { cfg with obs := cfg.obs ++ [{ name := name, phase := ph, filter := f, agg := a, every := ev,
+                                               add := strList add, exc := strList exc }] }
+      | _ => none
+    | _ => none
+  | _ => none
+
+def parseExts (cfg : Config) : List String → Option Config
+  | [] => some cfg
+  | t :: ts => (parseExt cfg t).bind fun c => parseExts c ts
+
+def parseBase : List String → Option Config
   | [seed, pop, map, start, stp, stop, keyCols, bits, flt, sexW, births, akpp, order, bprio, mPh, mPr, dPh, dPr,
      mortP, initW, selfOk, trans] => do
     let pop ← pop.toNat?
@@ -71,9 +150,12 @@ def parseCfg : List String → Option Config
            mortP := mortP, initW := initW, states := states }
   | _ => none
 
-def reply (r : Except Err State) : Option State × String :=
+def parseCfg (toks : List String) : Option Config :=
+  (parseBase (toks.take 22)).bind fun c => parseExts c (toks.drop 22)
+
+def reply (cfg : Config) (r : Except Err State) : Option State × String :=
   match r with
-  | .ok s => (some s, showState s)
+  | .ok s => (some s, showState cfg s)
   | .error e => (none, s!"err {errName e}")
 
 def step (st : St) : List String → St × String
@@ -82,12 +164,12 @@ def step (st : St) : List String → St × String
     | none => (st, "bad-op")
     | some cfg =>
       if !cfg.valid then ({ cfg := none, s := none }, "bad-config") else
-      let (s, r) := reply (initPop cfg)
+      let (s, r) := reply cfg (initPop cfg)
       ({ cfg := some cfg, s := s }, r)
   | ["step"] =>
     match st.cfg, st.s with
     | some cfg, some s =>
-      let (s', r) := reply (stepWhole RandomBlock.blockOf cfg s)
+      let (s', r) := reply cfg (stepWhole RandomBlock.blockOf cfg s)
       ({ st with s := s' }, r)
     | some _, none => (st, "err dead")
     | none, _ => (st, "bad-op")
@@ -96,7 +178,7 @@ def step (st : St) : List String → St × String
     | some cfg, some f =>
       match initPop cfg with
       | .error e => (st, s!"err {errName e}")
-      | .ok s0 => (st, (reply (runWhole cfg f s0)).2)
+      | .ok s0 => (st, (reply cfg (runWhole cfg f s0)).2)
     | _, _ => (st, "bad-op")
   | _ => (st, "bad-op")
 
